@@ -21,6 +21,13 @@ struct Case {
     metric: String, // "L1" | "L2" | "Linf" | "Lp3" | "Lp1.5"
     leaf: usize,
     queries: Vec<Vec<f64>>,
+    /// memory layout of the batch handed to the index: "standard" | "colmajor" | "reversed_view"
+    #[serde(default = "standard_layout")]
+    layout: String,
+}
+
+fn standard_layout() -> String {
+    "standard".to_string()
 }
 
 const KINDS: [(&str, CommonNearestNeighbour); 3] = [
@@ -47,6 +54,7 @@ struct Counters {
     indeterminate: u64,
     boundary_checked: u64,
     boundary_disagreements: u64,
+    documented_panics: u64,
 }
 
 fn run_case(case: &Case, viols: &mut Vec<Violation>) -> Counters {
@@ -70,12 +78,33 @@ fn to_f64<F: Float>(x: F) -> f64 {
 }
 
 fn run_typed<F: Float, D: Distance<F> + 'static>(case: &Case, dist_fn: D, viols: &mut Vec<Violation>) -> Counters {
+    use ndarray::ShapeBuilder;
+    let n = case.points.len();
+    let d = case.dim;
+    // the same logical matrix in different memory layouts: the answers must not depend on it
+    match case.layout.as_str() {
+        "colmajor" => {
+            let batch: Array2<F> = Array2::from_shape_fn((n, d).f(), |(i, j)| F::from(case.points[i][j]).unwrap());
+            run_on(case, &batch, dist_fn, viols)
+        }
+        "reversed_view" => {
+            let rev: Array2<F> = Array2::from_shape_fn((n, d), |(i, j)| F::from(case.points[n - 1 - i][j]).unwrap());
+            let view = rev.slice(ndarray::s![..;-1, ..]);
+            run_on(case, &view, dist_fn, viols)
+        }
+        _ => {
+            let batch: Array2<F> = Array2::from_shape_fn((n, d), |(i, j)| F::from(case.points[i][j]).unwrap());
+            run_on(case, &batch, dist_fn, viols)
+        }
+    }
+}
+
+fn run_on<F: Float, D: Distance<F> + 'static, S: ndarray::Data<Elem = F>>(case: &Case, batch: &ndarray::ArrayBase<S, ndarray::Ix2>, dist_fn: D, viols: &mut Vec<Violation>) -> Counters {
     let mut cnt = Counters::default();
     let n = case.points.len();
     let d = case.dim;
     let metric = metric_of(&case.metric);
     let tol = if case.float == "f32" { 2e-5 } else { 1e-11 };
-    let batch: Array2<F> = Array2::from_shape_fn((n, d), |(i, j)| F::from(case.points[i][j]).unwrap());
     // coordinates as the subject sees them (after rounding to F), for the reference
     let pts: Vec<Vec<f64>> = (0..n).map(|i| (0..d).map(|j| to_f64(batch[(i, j)])).collect()).collect();
     let cj = |extra: Value| -> Value {
@@ -87,7 +116,7 @@ fn run_typed<F: Float, D: Distance<F> + 'static>(case: &Case, dist_fn: D, viols:
     // build the three indices
     let mut idx = Vec::new();
     for (name, kind) in KINDS.iter() {
-        match guarded(|| kind.from_batch_with_leaf_size(&batch, case.leaf, dist_fn.clone())) {
+        match guarded(|| kind.from_batch_with_leaf_size(batch, case.leaf, dist_fn.clone())) {
             Ok(Ok(ix)) => idx.push((*name, ix)),
             Ok(Err(e)) => {
                 viols.push(Violation::new(
@@ -96,6 +125,11 @@ fn run_typed<F: Float, D: Distance<F> + 'static>(case: &Case, dist_fn: D, viols:
                     cj(json!({"op": "build"})),
                 ));
                 return cnt;
+            }
+            Err(p) if *name == "kdtree" && case.layout == "colmajor" && p.contains("contiguous") => {
+                // documented: "KdTree requires that points be laid out contiguously in memory and
+                // will panic otherwise" - rows of a column-major batch are not contiguous
+                cnt.documented_panics += 1;
             }
             Err(p) => {
                 viols.push(Violation::new(
@@ -458,7 +492,7 @@ fn main() {
          all subsets of <=5 (quick) / <=7 (thorough) points of the 3x3 lattice, their generic-position images (constant jitter table), all subsets of <=4 / <=6 corners of the unit cube, \
          a dimension sweep d in {1,2,3,8,16} over all multisets of <=4 of 5 pool vectors, plus empty / single / all-equal sets; \
          per case: every lattice and half-lattice query + one far query, k = 0..n+2, radii = 0, every distinct query-point distance exactly, \
-         every midpoint between consecutive distances, below the minimum, beyond the maximum; all three index kinds. \
+         every midpoint between consecutive distances, below the minimum, beyond the maximum; all three index kinds; the 2-D / 3-D / d-dimensional exact families are additionally handed over as a column-major array and as a reversed-row view of a reversed copy (L1, L2): the answers must be those of the standard layout (k-d tree: or its documented contiguity panic). \
          evaluations = individual queries; non-trivial = k-nearest with 0<k<n on n>=2 points, range queries whose open ball contains some but not all points; \
          distinct by construction of the enumerators.",
     );
@@ -544,7 +578,13 @@ fn main() {
         for f in floats {
             for m in metrics {
                 for &leaf in &leafs {
-                    cases.push(Case { family: fam.clone(), points: pts.clone(), dim: *d, float: f.into(), metric: m.into(), leaf, queries: queries.clone() });
+                    cases.push(Case { family: fam.clone(), points: pts.clone(), dim: *d, float: f.into(), metric: m.into(), leaf, queries: queries.clone(), layout: "standard".into() });
+                    // other memory layouts of the same matrix (only where they differ: n >= 2, d >= 2)
+                    if *d >= 2 && n >= 2 && !fam.ends_with("generic") && (m == "L2" || m == "L1") {
+                        for lay in ["colmajor", "reversed_view"] {
+                            cases.push(Case { family: fam.clone(), points: pts.clone(), dim: *d, float: f.into(), metric: m.into(), leaf, queries: queries.clone(), layout: lay.into() });
+                        }
+                    }
                 }
             }
         }
@@ -554,20 +594,23 @@ fn main() {
 
     let done = std::sync::atomic::AtomicU64::new(0);
     let bchecked = std::sync::atomic::AtomicU64::new(0);
+    let docpanics = std::sync::atomic::AtomicU64::new(0);
     let indet = std::sync::atomic::AtomicU64::new(0);
     par_sweep(&ctx, "nn sweep", &cases, |c| {
         let mut v = Vec::new();
         let cnt = run_case(c, &mut v);
         ctx.evals(cnt.evals, cnt.nontrivial);
         bchecked.fetch_add(cnt.boundary_checked, std::sync::atomic::Ordering::Relaxed);
+        docpanics.fetch_add(cnt.documented_panics, std::sync::atomic::Ordering::Relaxed);
         indet.fetch_add(cnt.indeterminate, std::sync::atomic::Ordering::Relaxed);
         ctx.violations(v);
         done.fetch_add(1, std::sync::atomic::Ordering::Relaxed);
-        ctx.sample(|| json!({"family": c.family, "points": c.points, "float": c.float, "metric": c.metric, "leaf": c.leaf, "n_queries": c.queries.len()}));
+        ctx.sample(|| json!({"family": c.family, "points": c.points, "float": c.float, "metric": c.metric, "leaf": c.leaf, "layout": c.layout, "n_queries": c.queries.len()}));
     });
     ctx.extra("cases_completed", json!(done.load(std::sync::atomic::Ordering::Relaxed)));
     ctx.extra("range_queries_with_points_exactly_on_radius", json!(bchecked.load(std::sync::atomic::Ordering::Relaxed)));
     ctx.extra("points_within_rounding_of_radius_indeterminate", json!(indet.load(std::sync::atomic::Ordering::Relaxed)));
+    ctx.extra("kdtree_documented_panics_on_column_major_batches", json!(docpanics.load(std::sync::atomic::Ordering::Relaxed)));
     error_menu(&ctx);
     ctx.finish(&replay_value);
 }
